@@ -23,7 +23,13 @@ def sh(cmd, **kw):
         return -9, 'TIMEOUT'
 
 
+DEMO_FLAGS = None   # --demo-flags "-O2 -DCELLO_NGC": build the demo together with the library sources in that configuration
+
+
 def build_demo(rd, demo, exe):
+    if DEMO_FLAGS is not None:
+        return sh(['gcc', '-std=gnu99', '-DCELLO_NSTRACE'] + DEMO_FLAGS.split() + ['-I', os.path.join(rd, 'include'), demo] +
+                  sorted(glob.glob(os.path.join(rd, 'src', '*.c'))) + ['-lpthread', '-lm', '-o', exe], timeout=600)
     rc, o = sh(['gcc', '-std=gnu99', '-I', os.path.join(rd, 'include'), demo, os.path.join(rd, 'libCello.a'),
                 '-lpthread', '-lm', '-ldl', '-rdynamic', '-o', exe])
     return rc, o
@@ -45,6 +51,9 @@ def main():
         base = a[a.index('--base') + 1]
     only = a[a.index('--only') + 1].split(',') if '--only' in a else None
     tag = a[a.index('--tag') + 1] if '--tag' in a else ''     # second-round seeds: C02-r2-1 ...
+    global DEMO_FLAGS
+    if '--demo-flags' in a:
+        DEMO_FLAGS = a[a.index('--demo-flags') + 1]
     if '--checks' in a:
         checks = a[a.index('--checks') + 1].split(',')
     os.makedirs(ST, exist_ok=True)
@@ -70,7 +79,7 @@ def main():
             if rc != 0:
                 print(name, 'demo does not build on the clean tree:', o[-300:]); continue
             rc, o = sh([exe], cwd=rd, timeout=120)
-            meta['ran'].append('clean tree: demo exit %d' % rc)
+            meta['ran'].append('clean tree: demo exit %d%s' % (rc, (' (demo built with the library sources and ' + DEMO_FLAGS + ')') if DEMO_FLAGS is not None else ''))
             if rc != 0:
                 print(name, 'demo FAILS on the clean tree (exit %d): %s' % (rc, o[-200:])); continue
             rc, o = sh(['git', '-C', rd, 'apply', '--whitespace=nowarn', patch])
